@@ -189,7 +189,7 @@ pub struct G<'a> {
 }
 
 pub const ADVERSARIAL_DOCS: &[&str] = &[
-    " [Foo]", " [`Foo`]", " see [Foo] and [bar::Baz]", " [a](b)", " [a](self::Foo)", " [text](Foo::bar)", " [x][y]", " [y]: Foo",
+    "  \u{20ac}[x](nope)", "   [Foo] \u{e9}", "\t\u{1F600}[a::b]", "  [\u{e9}]", " [Foo]", " [`Foo`]", " see [Foo] and [bar::Baz]", " [a](b)", " [a](self::Foo)", " [text](Foo::bar)", " [x][y]", " [y]: Foo",
     " [ä](ö)", " ä [Foo] €", " [Foo]\r[Bar]", " a\r[Foo]", " \r[Foo]", " [Foo]\r", "\t[Foo]", " [Foo\tBar]", " [[Foo]]", " [Foo",
     " Foo]", " []()", " [](", " ![img](Foo)", " <Foo>", " <https://x.y>", " [Foo](<Bar>)", " * [Foo]", " > [Foo]", " # [Foo]",
     " | [a] | [b] |", " |---|---|", " - [ ] [Foo]", " ~~[Foo]~~", " [^1]", " [^1]: [Foo]", " `[Foo]`", " ``` [Foo]", " \\[Foo]",
@@ -202,7 +202,7 @@ fn adversarial_text(t: &str) -> String {
     t.replace("\\r", "\r").replace("\\t", "\t").replace("\\u{1F600}", "\u{1F600}").replace("\\\"", "\"").replace("\\\\", "\\")
 }
 
-const IDENTS: &[&str] = &["a", "b1", "foo", "foo_bar", "_x", "X", "Foo", "FooBar", "requiredx", "struct", "enum", "fallback", "version", "uuid", "u8x", "boolean", "optional", "boxed", "bytes_", "valuex", "unit1", "args", "ok", "err", "fn", "event", "import", "service", "const", "newtype", "i64", "mapped", "resultx", "string", "lifetime_", "t", "xx"];
+const IDENTS: &[&str] = &["a", "b1", "foo", "foo_bar", "_x", "_", "__", "x_", "_1", "X", "Foo", "FooBar", "requiredx", "struct", "enum", "fallback", "version", "uuid", "u8x", "boolean", "optional", "boxed", "bytes_", "valuex", "unit1", "args", "ok", "err", "fn", "event", "import", "service", "const", "newtype", "i64", "mapped", "resultx", "string", "lifetime_", "t", "xx"];
 const TYPE_IDENTS: &[&str] = &["Foo", "Bar", "Baz9", "a", "x_y", "T", "boxed", "optional", "mapped", "vector", "Result", "setter", "senders", "receiverx", "struct", "enum", "Unit", "Value", "U8", "resulting", "_u8"];
 // names that start with a parameterless type keyword: the grammar commits to the keyword
 const TYPE_TRAPS: &[&str] = &["unity", "lifetimes", "u8x", "boolean", "valuex", "bytesx", "stringy", "uuid4", "i64_", "f32x", "object_ident", "service_idx"];
